@@ -126,7 +126,17 @@ func PerturbHost(r *hx.Rand, h string) string {
 	if h == "" {
 		return hx.Pick(r, []string{"", "a", "a.b", "example.com", "x.y.z"})
 	}
-	switch r.Intn(10) {
+	switch r.Intn(16) {
+	case 10:
+		return h + ":"
+	case 11:
+		return "[" + h + "]:80"
+	case 12:
+		return hx.Pick(r, []string{"[::1]:80", "[::1]", "::1", "127.0.0.1:80", ".", ":80", "a.b..", "[a.b.]:1", "a]:80", "a:b:80", "a.b.:"})
+	case 13:
+		return h + ".."
+	case 14:
+		return h + ".:8080"
 	case 0:
 		return h + ":8080"
 	case 1:
